@@ -160,10 +160,10 @@ var (
 
 func genData(r *hx.Rng, cls string) []byte {
 	if cls == "reg" || cls == "unreg" {
-		switch r.Intn(8) {
-		case 0:
+		switch r.Intn(40) {
+		case 0, 5, 6, 7:
 			return nil
-		case 1: // hostile: not a channel list at all
+		case 1, 8, 9, 10: // hostile: not a channel list at all
 			return r.Bytes(1 + r.Intn(40))
 		case 2: // longer than MaxInt16
 			return []byte(strings.Repeat("a:b\x00", 9000))
@@ -173,7 +173,7 @@ func genData(r *hx.Rng, cls string) []byte {
 				fmt.Fprintf(&sb, "v:c%d\x00", i)
 			}
 			return []byte(sb.String())
-		case 4: // invalid identifiers mixed with valid ones
+		case 4, 11, 12, 13: // invalid identifiers mixed with valid ones
 			return []byte("ok:one\x00Bad Channel\x00:x\x00two")
 		}
 		n := 1 + r.Intn(4)
@@ -183,10 +183,10 @@ func genData(r *hx.Rng, cls string) []byte {
 		}
 		return []byte(strings.Join(parts, "\x00"))
 	}
-	switch r.Intn(6) {
-	case 0:
+	switch r.Intn(30) {
+	case 0, 3, 4, 5:
 		return nil
-	case 1:
+	case 1, 6, 7, 8:
 		return []byte{byte(r.U64())}
 	case 2:
 		return r.Bytes(32768)
